@@ -548,6 +548,14 @@ func splitConj(e *CExpr) []*CExpr {
 }
 
 func (st *State) evalCtx() *EvalCtx {
+	if st.ghostFrame != nil {
+		fn := st.ghostFrame.fn
+		var pkg *types.Package
+		if fn.Pkg != nil {
+			pkg = fn.Pkg.Pkg
+		}
+		return &EvalCtx{st: st, names: st.ghostFrame.names, pkg: pkg, tparams: st.vc.tparamEnv(fn)}
+	}
 	fn := st.fr.fn
 	var pkg *types.Package
 	if fn.Pkg != nil {
